@@ -1,4 +1,7 @@
 import Rbacx.Model.Engine
 import Rbacx.Proofs.PolicyLoop
 import Rbacx.Proofs.EvaluateSpec
+import Rbacx.Spec.Combining
+import Rbacx.Spec.Operators
 import Rbacx.Properties.C02
+import Rbacx.Properties.C04
